@@ -67,7 +67,7 @@ def _small_dyadic_fraction(fr: Fraction) -> bool:
     den = fr.denominator
     if den & (den - 1):
         return False
-    return abs(fr.numerator).bit_length() <= 40 and den.bit_length() <= 41
+    return abs(fr.numerator).bit_length() <= 53 and den.bit_length() <= 60
 
 
 def val_from_float(f: float, d=None) -> Val:
@@ -93,7 +93,12 @@ def val_from_literal(text: str, want_d=False) -> Val:
 
 
 def _in_range(v):
-    return v == 0 or (SMALL < abs(v) < BIG)
+    """v (an mpf computed exactly from exact operands) is a double: <= 53 significant bits, moderate magnitude."""
+    if v == 0:
+        return True
+    if not (SMALL < abs(v) < BIG):
+        return False
+    return v._mpf_[3] <= 53
 
 
 _REL = {"Lt", "Gt", "Le", "Ge", "Eq"}
@@ -229,7 +234,7 @@ class Evaluator:
 
     def _add(self, a, b, sgn):
         v = a.v + sgn * b.v
-        x = a.x and b.x and abs(v) < BIG
+        x = a.x and b.x and abs(v) < BIG and _in_range(v) if v != 0 else (a.x and b.x)
         e = a.e + b.e + (ZERO if x else U * (abs(a.v) + abs(b.v)))
         if self._dd(a, b):
             return Val(v, e, x, a.d + sgn * b.d, a.dm + b.dm)
@@ -467,7 +472,7 @@ class Evaluator:
         if 1000 * b.e >= abs(b.v):
             raise Undecidable("Mod divisor not separated from zero")
         q = a.v / b.v
-        both = a.x and b.x and a.e == 0 and b.e == 0
+        both = a.x and b.x and a.e == 0 and b.e == 0 and _in_range(q)
         qe = ZERO if both else (a.e / abs(b.v) + abs(q) * b.e / abs(b.v) + U * abs(q))
         fl = self._int_distance(q, qe, both)
         v = a.v - b.v * fl
